@@ -520,6 +520,8 @@ def boundary_bodies(ctx):
 
 def valid_frames(ctx, n, boundaries=False):
     out = boundary_bodies(ctx) if boundaries else []
+    for ch_ in (0, 65535):       # the empty body frame is a frame too (D12)
+        out.append((body.ContentBody(b''), ch_, frame.marshal(body.ContentBody(b''), ch_)))
     for _ in range(n):
         f, ch = lanes.random_frame(ctx)
         try:
